@@ -1,0 +1,7 @@
+//go:build !verif
+
+package litestream
+
+// verifTrace is the lock-event hook of the verification harness (property
+// C12). Without the "verif" build tag it is empty and inlined away.
+func verifTrace(obj any, ev string) {}
